@@ -1,6 +1,4 @@
 package main
 
-func serCase(c *Case) map[string]any   { return map[string]any{"harness_error": "todo"} }
-func unserCase(c *Case) map[string]any { return map[string]any{"harness_error": "todo"} }
-func jsonEnc(c *Case) map[string]any   { return map[string]any{"harness_error": "todo"} }
-func jsonDec(c *Case) map[string]any   { return map[string]any{"harness_error": "todo"} }
+func jsonEnc(c *Case) map[string]any { return map[string]any{"harness_error": "todo"} }
+func jsonDec(c *Case) map[string]any { return map[string]any{"harness_error": "todo"} }
